@@ -157,6 +157,8 @@ def run(ctx) -> None:
     ctx.guard(r19_1)
     ctx.guard(r19_2_3)
     ctx.guard(r19_4_5)
+    from .c11 import r11_2
+    ctx.guard_as("R19.6", r11_2)  # RSA integers are exported through the minimal-length codec
     ctx.note("undecided remainder: decode(encode(x)) == x and rejection of every non-alphabet character / impossible length for *all* octet strings is a property of "
              "CPython's binascii C code - outside the analysed source")
     ctx.assume("base64.b64decode(validate=True) rejects non-alphabet characters and impossible lengths (non-canonical trailing bits are accepted by CPython)")
